@@ -174,6 +174,9 @@ def pmtm(x, NW=None, k=None, NFFT=None, e=None, v=None, method="adapt", show=Fal
     """
     assert method in ["adapt", "eigen", "unity"]
 
+    x = np.asarray(x)
+    if x.dtype.kind in 'iub':
+        x = x.astype(float)  # integer powers would wrap around
     N = len(x)
 
     # if dpss not provided, compute them
